@@ -35,8 +35,12 @@ def harness_overlay(native=False):
     return ov
 
 
-def build_program(workdir):
-    """run ssaexport on /repo's current working tree + harness overlay"""
+DEPTH_SCALE_RE = r'rjson\.(skipValue|skipValueFast|vRefValueEnd)$|ValueReader\)\.Handle(Array|Object)Value$'
+
+
+def build_program(workdir, scale_depth=None):
+    """run ssaexport on /repo's current working tree + harness overlay.
+    Returns the Program, or (Program, scaled Program) when scale_depth is given."""
     ovf = os.path.join(workdir, 'overlay.json')
     with open(ovf, 'w') as f:
         json.dump(harness_overlay(), f)
@@ -49,6 +53,8 @@ def build_program(workdir):
     if r.returncode != 0:
         sys.stderr.write(r.stderr)
         raise ToolError('ssaexport failed (does /repo compile?)')
+    if scale_depth:
+        return Program(out), Program(out, scale=(DEPTH_SCALE_RE, 10000, scale_depth))
     return Program(out)
 
 
@@ -263,7 +269,25 @@ def go_bytes(b):
     return '[]byte{' + ','.join(str(x) for x in b) + '}'
 
 
-def native_replay(cases, pkgdir='.', timeout=600, extra_files=None):
+def scaled_sources(work, depth):
+    """overlay copies of the three files that define the depth limits, with the limit replaced"""
+    import re as _re
+    out = {}
+    for virt, real, pat in ((os.path.join(REPO, 'machine_helpers.go'), os.path.join(REPO, 'machine_helpers.go'), r'(const skipMaxDepth = )10_000'),
+                            (os.path.join(REPO, 'complex_readers.go'), os.path.join(REPO, 'complex_readers.go'), r'(const valueReaderMaxDepth = )10_000'),
+                            (os.path.join(REPO, 'zz_verif_ref.go'), os.path.join(VERIF, 'harness', 'zz_verif_ref.go'), r'(const vRefMaxDepth = )10000')):
+        src = open(real).read()
+        new, n = _re.subn(pat, r'\g<1>%d' % depth, src)
+        if n != 1:
+            raise ToolError('cannot scale depth constant in %s' % real)
+        dst = os.path.join(work, 'scaled_' + os.path.basename(virt))
+        with open(dst, 'w') as f:
+            f.write(new)
+        out[virt] = dst
+    return out
+
+
+def native_replay(cases, pkgdir='.', timeout=600, extra_files=None, scale_depth=None):
     """cases: list of (name, script ints, go call expression). Runs them against the
     real build of /repo's current tree. Returns {name: ('PASS'|'FAIL'|'PANIC'|'ASSUME-FAILED', detail)}"""
     work = tempfile.mkdtemp(prefix='verif-replay-')
@@ -280,6 +304,8 @@ def native_replay(cases, pkgdir='.', timeout=600, extra_files=None):
         ov[os.path.join(REPO, pkgdir, 'zz_verif_replay_test.go')] = tf
         for virt, real in (extra_files or {}).items():
             ov[virt] = real
+        if scale_depth:
+            ov.update(scaled_sources(work, scale_depth))
         ovf = os.path.join(work, 'overlay.json')
         with open(ovf, 'w') as f:
             json.dump({'Replace': ov}, f)
